@@ -190,12 +190,21 @@ func (f changeFinder) walkStruct(from, to *value) bool {
 
 	starts := make([]token.Pos, from.Len())
 	lastEnd := f.Pos
+	finder := f
 	for i, f := range from.Children {
 		switch {
 		case f.IsNode:
 			// If the field is a Node, its range begins when the Node starts.
 			starts[i] = f.Pos()
 			lastEnd = f.End()
+
+			// Comments that trail the node belong to it: the range of
+			// what follows begins after them. Otherwise the comment after
+			// "package foo" was part of the first declaration's range and
+			// was deleted together with it.
+			if _, after := finder.commentsFor(f); len(after) > 0 {
+				lastEnd = maxPos(lastEnd, after[len(after)-1].End())
+			}
 		case f.Type() == goast.PosType:
 			// If the field is a token.Pos, its range begins based on whatever
 			// its value is.
